@@ -260,3 +260,24 @@ def apalache(module, init, inv, length, workdir, spec_dir=SPEC_DIR, timeout=600,
     if p.returncode == 12 or 'Checker has found an error' in out or 'violat' in out:
         return 'violation'
     raise MachineryError('apalache failed (%s): %s' % (p.returncode, out[-1500:]))
+
+
+def tlaps(proof_module, workdir, spec_dir=SPEC_DIR, timeout=900):
+    """Run the TLA+ proof system on spec/proofs/<proof_module>.tla (in a scratch copy: tlapm writes its cache next
+    to the module).  Returns the number of obligations proved; raises MachineryError unless all are."""
+    src = os.path.join(spec_dir, 'proofs', proof_module + '.tla')
+    wd = os.path.join(workdir, 'tlaps_' + proof_module)
+    shutil.rmtree(wd, ignore_errors=True)
+    os.makedirs(wd)
+    shutil.copy(src, wd)
+    cmd = ['tlapm', '--cleanfp', '-I', spec_dir, proof_module + '.tla']
+    try:
+        p = subprocess.run(cmd, cwd=wd, timeout=timeout, stdout=subprocess.PIPE, stderr=subprocess.STDOUT)
+    except subprocess.TimeoutExpired:
+        raise MachineryError('tlapm timed out on %s' % proof_module)
+    out = p.stdout.decode('utf-8', 'replace')
+    shutil.rmtree(wd, ignore_errors=True)
+    m = re.search(r'All (\d+) obligations? proved', out)
+    if p.returncode == 0 and m:
+        return int(m.group(1))
+    raise MachineryError('tlapm did not prove %s: %s' % (proof_module, out[-1200:]))
